@@ -3,6 +3,5 @@ NEXT Next
 CHECK_DEADLOCK FALSE
 INVARIANT GrammarVsAlgo
 INVARIANT JsonSubset
-INVARIANT Emit
 CONSTANTS
-  L = 6
+  L = 5
